@@ -10,7 +10,9 @@ use rayon::prelude::*;
 use serde_json::json;
 use std::collections::{BTreeMap, HashSet};
 
-const TARGETS: [&str; 4] = ["X", "S$", "A(2)", "T$(1)"];
+/// The last two targets have a subscript with a side effect (advances the generator) and a
+/// subscript that fails: nothing of the statement may be evaluated before the reply arrives.
+const TARGETS: [&str; 6] = ["X", "S$", "A(2)", "T$(1)", "A(INT(RND(1)*3))", "A(\"X\")"];
 
 /// `{I}` marks the INPUT statement.
 fn contexts() -> Vec<(&'static str, Vec<&'static str>)> {
@@ -33,7 +35,7 @@ fn contexts() -> Vec<(&'static str, Vec<&'static str>)> {
     ]
 }
 
-const DUMP: &str = "9990 PRINT \"|\";X;S$;A(2);T$(1);I";
+const DUMP: &str = "9990 PRINT \"|\";X;S$;A(0);A(1);A(2);T$(1);I;RND(1)";
 
 struct Reply {
     text: &'static str,
@@ -153,8 +155,14 @@ pub fn run(_thorough: bool) -> Report {
                 }
             }
 
+            // a target whose subscript fails is not a variable a reply could suit: only the
+            // suspension clause and the plain reply are meaningful for it
+            let failing_target = target.contains("\"X\"");
             for r in &reps {
                 let lit = if is_str { r.string } else { r.num };
+                if failing_target && lit.is_none() {
+                    continue;
+                }
                 if is_str && lit.is_none() {
                     continue;
                 }
@@ -163,7 +171,7 @@ pub fn run(_thorough: bool) -> Report {
                         // (b) resumption: equals the assignment variant; (c) with REENTER prefixes
                         let assigned = instantiate(ctx, &format!("{} = {}", target, lit));
                         let (want, _) = run_all(&assigned, &[]);
-                        let prefixes: Vec<Vec<&str>> = if is_str { vec![vec![]] } else { vec![vec![], vec!["abc"], vec!["abc", ""], vec!["\"", "x,y"]] };
+                        let prefixes: Vec<Vec<&str>> = if is_str || failing_target { vec![vec![]] } else { vec![vec![], vec!["abc"], vec!["abc", ""], vec!["\"", "x,y"]] };
                         for pre in prefixes {
                             evals += 1;
                             nontrivial += 1;
@@ -204,7 +212,10 @@ pub fn run(_thorough: bool) -> Report {
                                     hist.clone(),
                                 ));
                             }
-                            let good_requests = got.requests - pre.len();
+                            let good_requests = got.requests.saturating_sub(pre.len());
+                            if failing_target {
+                                continue; // the statement fails after the reply: no record is due
+                            }
                             if let Some(x) = r.extra {
                                 let expect = if x { good_requests } else { 0 };
                                 if got.extra_ignored != expect {
@@ -233,7 +244,7 @@ pub fn run(_thorough: bool) -> Report {
                                         out.push(mk(format!("unsuitable reply {:?} did not give exactly REENTER + the same request", bad), format!("records {:?}, ended {:?}", kinds, e), hist.clone()));
                                         break;
                                     }
-                                    if after.variables != before.variables || after.arrays != before.arrays || after.location_line != before.location_line || after.location_token_index != before.location_token_index {
+                                    if after.variables != before.variables || after.arrays != before.arrays || after.rng_state != before.rng_state || after.location_line != before.location_line || after.location_token_index != before.location_token_index {
                                         out.push(mk(format!("unsuitable reply {:?} changed program state", bad), format!("before {:?} after {:?}", before, after), hist.clone()));
                                         break;
                                     }
